@@ -150,7 +150,13 @@ def replay_sample(chk, fam, data, sd, work, base, n, pid="C09"):
     if not res.ok:
         chk.tlc_violation(res, "Build/sim")
     r = common.rng(pid, "histories")
-    picks, distinct, covered = select_histories(res.records, n, r)
+    # faults are injected through a Python start-up shim: steps run by native binaries (resvg) cannot be made to fail on
+    # cue, so histories that fault there are model-checked but not replayed
+    native = {e["out"] for w in data["worlds"] for e in w["edges"] if e["rule"] == "write_bitmap"}
+    records = [x for x in res.records if not any(h.get("op") in ("Fail", "Trunc") and h.get("out") in native for h in x["hist"])]
+    chk.notes.setdefault("histories_not_replayed_native_step_faults", 0)
+    chk.notes["histories_not_replayed_native_step_faults"] += len(res.records) - len(records)
+    picks, distinct, covered = select_histories(records, n, r)
     chk.notes["op_kinds_judged_by_a_later_successful_invocation"] = covered
     if len(picks) < min(n, 4):
         raise MachineryError(f"only {len(picks)} usable histories from simulation ({distinct} distinct)")
